@@ -1,29 +1,36 @@
-"""bin/setup: regenerate every Gen/*.v from /repo, then build the whole development (full .vo build)."""
+"""bin/setup: regenerate every Gen/*.v of the claimed properties from /repo, then build their cones (full .vo build)."""
 import importlib
-import pkgutil
+import os
 import sys
 
 from harness.common import coq
-from harness import props
+from harness.manifest import CLAIMED
 from harness.run import Ctx
 
 
 def main():
-    for m in pkgutil.iter_modules(props.__path__):
-        mod = importlib.import_module('harness.props.' + m.name)
-        ctx = Ctx(getattr(mod, 'ID', m.name.upper()), 'quick', 0)
+    targets = []
+    for pid in CLAIMED:
+        mod = importlib.import_module('harness.props.' + pid.lower())
+        ctx = Ctx(pid, 'quick', 0)
         try:
             for tr in getattr(mod, 'TRANSLATORS', []):
                 try:
                     info = tr(ctx)
-                    print('translator', tr.__name__, info.get('status'))
+                    print('translator', pid, tr.__name__, info.get('status'))
                 except Exception as e:
-                    print('translator', tr.__name__, 'FAILED', e)
+                    print('translator', pid, tr.__name__, 'FAILED', e)
         finally:
             ctx.cleanup()
-    ok, log, wall, cmd = coq.build(None)
+        targets += [t[:-2] + '.vo' if t.endswith('.v') else t for t in getattr(mod, 'MODEL_TARGETS', [])]
+        targets.append(mod.PROPS[:-2] + '.vo')
+        old = 'theories/History/%sOld.v' % pid
+        if os.path.exists(os.path.join(coq.COQ, old)):
+            targets.append(old[:-2] + '.vo')
+    targets = sorted(set(targets))
+    ok, log, wall, cmd = coq.build(targets)
     print(log[-3000:])
-    print('build ok=%s wall=%.1fs' % (ok, wall))
+    print('build ok=%s wall=%.1fs targets=%d' % (ok, wall, len(targets)))
     sys.exit(0 if ok else 1)
 
 
